@@ -57,7 +57,7 @@ def build(V, opts=None):
         wn.options.quality.diffusivity = 1.3
         wn.options.quality.tolerance = 0.02
         r = wn.options.reaction
-        r.bulk_order, r.wall_order, r.tank_order = 1.0, 1, 1.0
+        r.bulk_order, r.wall_order, r.tank_order = o.get('orders', (1.0, 1, 1.0))
         r.bulk_coeff, r.wall_coeff = -1.2e-5, -2.0e-6
         r.limiting_potential = 0.5
         r.roughness_correl = 0.1
